@@ -26,8 +26,8 @@ def drop_chunks(lst, min_len=0):
 
 def simplify_numbers(values):
     """Candidate simplifications of a numeric list (same length)."""
-    if not values:
-        return
+    if not values or any(isinstance(v, float) and (v != v or v in (float("inf"), float("-inf"))) for v in values):
+        return  # NaN / infinite entries are what the scenario is about: leave the numbers alone
     order = sorted(set(values))
     rank = {v: float(i) for i, v in enumerate(order)}
     cand = [rank[v] for v in values]
